@@ -31,6 +31,7 @@ func runC04(c *Ctx) {
 	case 2:
 		tw.Cfg.VerifyClientIP = env.Bool(false)
 	}
+	tw.Cfg.Hosts = []string{p.AllowedHost}
 	if !BootTun(c, tw, false) {
 		return
 	}
@@ -66,8 +67,29 @@ func runC04(c *Ctx) {
 		}
 	}
 	expectAllowed := verify == 2 || addrA == addrB
-	// mint for A
+	// issuance to A: through the real download flow (the browser's address is A, as TCP peer or
+	// as first X-Forwarded-For element), or a harness-minted cookie whose clientIp claim is A
 	cookie := MintCookie(c, tw.Cfg.PAASigningKey, p.User, p.AllowedHost, addrA, p.AccessToken, 5*60*1e9)
+	issued := "minted"
+	if c.T.Bool(1, 2) {
+		b := c.W.NewBrowser("b1", peerOf(addrA, 52000))
+		issued = "real-download(peer)"
+		if c.T.Bool(1, 2) {
+			b.From = "10.200.0.7:52000"
+			b.XFF = addrA + []string{"", ", 10.200.0.9", " , 198.51.100.2, 10.200.0.9"}[c.T.Choose(3)]
+			issued = "real-download(xff=" + b.XFF + ")"
+		}
+		f := loginAndFile(c, b, &env.IdPUser{Sub: p.User, Claims: map[string]any{"preferred_username": p.User}}, "/connect")
+		if f == nil {
+			return
+		}
+		cookie = f.Values["gatewayaccesstoken"]
+		if f.Values["full address"] != p.AllowedHost {
+			c.Infra("unexpected host in the issued file: %q", f.Values["full address"])
+			return
+		}
+		c.S.Count("probe.issued_by_real_download")
+	}
 	cc := PChannel(p.AllowedHost, HostAllowed)
 	if !expectAllowed {
 		cc.Verdict = HostDenied
@@ -104,6 +126,6 @@ func runC04(c *Ctx) {
 		}
 	}
 	c.Res.Reach = len(t.Client.Sent) >= 4
-	c.Samplef("%s verify=%s issued-to=%s presented-from=%s via{peer=%s%s xff=%q} => expect-allowed=%v events=%s", p.Transport,
-		[]string{"default", "true", "false"}[verify], addrA, addrB, peerOf(peerIP, 40000), note, p.XFF, expectAllowed, t.Client.Describe())
+	c.Samplef("%s verify=%s issuance=%s issued-to=%s presented-from=%s via{peer=%s%s xff=%q} => expect-allowed=%v events=%s", p.Transport,
+		[]string{"default", "true", "false"}[verify], issued, addrA, addrB, peerOf(peerIP, 40000), note, p.XFF, expectAllowed, t.Client.Describe())
 }
